@@ -595,3 +595,375 @@ Proof. unfold canon_event. destruct (nth_error (s_variants s) (e_var e)); reflex
 
 Lemma canon_event_var s e : e_var (canon_event s e) = e_var e.
 Proof. unfold canon_event. destruct (nth_error (s_variants s) (e_var e)); reflexivity. Qed.
+
+(* ================= text level: the written document is well-formed JSON ================= *)
+Definition prints_ok (t : ty) : Prop :=
+  wf_ty t = true -> forall v, wt t v = true -> txt_ok t v = true -> json_ok (enc t v) = true.
+
+Lemma txt_ok_struct fs vs : txt_ok (TStruct fs) (VStruct vs) = txt_ok_fields fs vs.
+Proof. reflexivity. Qed.
+
+Lemma txt_ok_fields_cons m t fs v vs : txt_ok_fields ((m, t) :: fs) (v :: vs) = txt_ok t v && txt_ok_fields fs vs.
+Proof. reflexivity. Qed.
+
+Definition kv_ok (kv : str * json) : bool := str_ok (fst kv) && json_ok (snd kv).
+
+Lemma json_ok_obj kvs : json_ok (JObj kvs) = forallb kv_ok kvs.
+Proof. reflexivity. Qed.
+
+Lemma wf_meta_key m t : wf_meta m t = true -> str_ok (fkey m) = true.
+Proof. unfold wf_meta. rewrite !andb_true_iff. tauto. Qed.
+
+Lemma enc_fields_ok fs : forall vs,
+  Forall (fun f => prints_ok (snd f)) fs -> wf_fields fs = true -> wt_fields fs vs = true -> txt_ok_fields fs vs = true ->
+  forallb kv_ok (enc_fields fs vs) = true.
+Proof.
+  induction fs as [|[m t] fs IH]; intros [|v vs] HF Hwf Hwt Htx; try reflexivity.
+  inversion HF as [|? ? Hp HF']; subst. cbn [snd] in Hp.
+  rewrite wf_fields_cons in Hwf. rewrite wt_fields_cons in Hwt. rewrite txt_ok_fields_cons in Htx.
+  rewrite !andb_true_iff in Hwf. destruct Hwf as [[Hmeta Hty] Hwfs].
+  apply andb_true_iff in Hwt. destruct Hwt as [Hv Hvs]. apply andb_true_iff in Htx. destruct Htx as [Hx Hxs].
+  rewrite enc_fields_cons. destruct (skipped (fskip m) v); [apply IH; assumption|].
+  cbn [forallb]. rewrite (IH vs HF' Hwfs Hvs Hxs). unfold kv_ok. cbn [fst snd].
+  rewrite (wf_meta_key m t Hmeta), (Hp Hty v Hv Hx). reflexivity.
+Qed.
+
+Theorem json_ok_enc : forall t, prints_ok t.
+Proof.
+  induction t as [| | | | | | | t IH | t IH | tags | fs IH |] using ty_ind'; intros Hwf v Hwt Htx.
+  - destruct v; try discriminate. exact Htx.
+  - destruct v; try discriminate. apply num_ok_dec.
+  - destruct v; try discriminate. apply num_ok_dec.
+  - destruct v; try discriminate. apply num_ok_dec.
+  - destruct v; try discriminate. apply num_ok_decz.
+  - destruct v; try discriminate. reflexivity.
+  - destruct v; try discriminate. exact Htx.
+  - destruct v as [| | | | |[v'|]| | |]; try discriminate; [|reflexivity]. apply IH; assumption.
+  - destruct v as [| | | | | |l| |]; try discriminate. cbn [wt] in Hwt. cbn [txt_ok] in Htx. cbn [wf_ty] in Hwf.
+    cbn [enc json_ok]. rewrite forallb_forall in *. intros j Hj. apply in_map_iff in Hj. destruct Hj as [x [<- Hx]].
+    apply IH; auto.
+  - destruct v; try discriminate. cbn [wt] in Hwt. cbn [wf_ty] in Hwf. apply andb_true_iff in Hwf. destruct Hwf as [_ Hok].
+    cbn [enc json_ok]. apply mem_str_In in Hwt. rewrite forallb_forall in Hok. apply Hok. exact Hwt.
+  - destruct v as [| | | | | | | |vs]; try discriminate. rewrite wt_struct in Hwt. rewrite txt_ok_struct in Htx.
+    rewrite wf_ty_struct in Hwf. apply andb_true_iff in Hwf. destruct Hwf as [_ Hwfs].
+    rewrite enc_struct, json_ok_obj. apply enc_fields_ok; assumption.
+  - discriminate.
+Qed.
+
+Lemma kind_name_ok k : str_ok (kind_name k) = true.
+Proof. destruct k; vm_compute; reflexivity. Qed.
+
+Lemma env7_ok a b c d e f g :
+  json_ok a = true -> json_ok b = true -> json_ok c = true -> json_ok d = true -> json_ok e = true -> json_ok f = true ->
+  json_ok g = true -> forallb kv_ok (env7 a b c d e f g) = true.
+Proof.
+  intros Ha Hb Hc Hd He Hf Hg. unfold env7. cbn [forallb]. unfold kv_ok. cbn [fst snd].
+  rewrite Ha, Hb, Hc, Hd, He, Hf, Hg. vm_compute. reflexivity.
+Qed.
+
+Theorem json_ok_encode s e :
+  wf_schema s = true -> frame_ok s e = true -> json_ok (encode_event s e) = true.
+Proof.
+  intros Hwf Hok. apply wf_schema_parts in Hwf. destruct Hwf as [_ Hvs].
+  unfold frame_ok, wt_event, txt_event in Hok.
+  destruct (nth_error (s_variants s) (e_var e)) as [v|] eqn:Hn; [|discriminate].
+  rewrite !andb_true_iff in Hok. destruct Hok as [[[Hts Hsq] Hfs] [[Hid Hsid] Htx]].
+  assert (Hv : wf_variant v = true) by (rewrite forallb_forall in Hvs; apply Hvs; eapply nth_error_In; exact Hn).
+  assert (Htag : str_ok (vtag v) = true) by (unfold wf_variant in Hv; rewrite !andb_true_iff in Hv; tauto).
+  apply wf_variant_parts in Hv. destruct Hv as [_ [_ Hwff]].
+  rewrite (encode_event_eq s e v Hn), json_ok_obj, forallb_app. apply andb_true_iff. split.
+  - apply env7_ok; cbn [json_ok]; auto using kind_name_ok, num_ok_dec.
+  - apply enc_fields_ok; try assumption. apply Forall_forall. intros f _. apply json_ok_enc.
+Qed.
+
+(* ================= one line: what is appended to events.jsonl / a sidecar reads back ================= *)
+Theorem read_write_line s e :
+  wf_schema s = true -> frame_ok s e = true -> depth_ok s e = true ->
+  read_line s (write_line s e) = Some (canon_event s e).
+Proof.
+  intros Hwf Hok Hd. unfold read_line, write_line.
+  rewrite parse_print; [| apply json_ok_encode; assumption | apply Nat.ltb_lt; exact Hd].
+  apply decode_encode; [exact Hwf|]. unfold frame_ok in Hok. apply andb_true_iff in Hok. tauto.
+Qed.
+
+(* ================= one snapshot file ================= *)
+Lemma fold_max_lt (l : list nat) n : (0 < n)%nat -> Forall (fun d => (d < n)%nat) l -> (fold_right Nat.max 0%nat l < n)%nat.
+Proof. intros Hn H. induction H as [|d l Hd _ IH]; cbn [fold_right]; [exact Hn | lia]. Qed.
+
+Theorem read_write_snapshot s es :
+  wf_schema s = true ->
+  Forall (fun e => frame_ok s e = true /\ snapshot_depth_ok s e = true) es ->
+  read_snapshot s (write_snapshot s es) = Some (map (canon_event s) es).
+Proof.
+  intros Hwf HF. unfold read_snapshot, write_snapshot. rewrite parse_print_pretty.
+  - apply map_opt_map. intros e He. rewrite Forall_forall in HF. destruct (HF e He) as [Hok _].
+    apply decode_encode; [exact Hwf|]. unfold frame_ok in Hok. apply andb_true_iff in Hok. tauto.
+  - cbn [json_ok]. rewrite forallb_forall. intros j Hj. apply in_map_iff in Hj. destruct Hj as [e [<- He]].
+    rewrite Forall_forall in HF. destruct (HF e He) as [Hok _]. apply json_ok_encode; assumption.
+  - cbn [json_depth]. apply (proj1 (Nat.succ_lt_mono _ _)). apply fold_max_lt; [lia|].
+    rewrite map_map. apply Forall_forall. intros d Hd. apply in_map_iff in Hd. destruct Hd as [e [<- He]].
+    rewrite Forall_forall in HF. destruct (HF e He) as [_ Hdp]. apply Nat.ltb_lt. exact Hdp.
+Qed.
+
+(* ================= the four views of a stream ================= *)
+Lemma stream_key_canon s e : stream_key s (canon_event s e) = stream_key s e.
+Proof. unfold stream_key. rewrite canon_event_kind, canon_event_sid. reflexivity. Qed.
+
+Lemma of_stream_canon s key es : of_stream s key (map (canon_event s) es) = map (canon_event s) (of_stream s key es).
+Proof.
+  unfold of_stream. induction es as [|e es IH]; [reflexivity|].
+  cbn [map filter]. rewrite stream_key_canon. destruct (key_eqb (stream_key s e) key); cbn [map]; rewrite IH; reflexivity.
+Qed.
+
+Lemma run_emits_from s es : forall k,
+  fold_left (emit s) es k =
+  {| k_log := k_log k ++ map (write_line s) es;
+     k_sidecar := k_sidecar k ++ map (fun e => (fst (stream_key s e), snd (stream_key s e), write_line s e)) es;
+     k_buffer := k_buffer k ++ es;
+     k_live := k_live k ++ es |}.
+Proof.
+  induction es as [|e es IH]; intros k; cbn [fold_left map].
+  - rewrite !app_nil_r. destruct k; reflexivity.
+  - rewrite IH. unfold emit. cbn [k_log k_sidecar k_buffer k_live]. rewrite <- !app_assoc. reflexivity.
+Qed.
+
+Lemma run_emits_eq s es :
+  run_emits s es =
+  {| k_log := map (write_line s) es;
+     k_sidecar := map (fun e => (fst (stream_key s e), snd (stream_key s e), write_line s e)) es;
+     k_buffer := es; k_live := es |}.
+Proof. unfold run_emits. rewrite run_emits_from. reflexivity. Qed.
+
+Definition all_ok (s : schema) (es : list event) : Prop :=
+  Forall (fun e => frame_ok s e = true /\ snapshot_depth_ok s e = true) es.
+
+Lemma snapshot_depth_depth s e : snapshot_depth_ok s e = true -> depth_ok s e = true.
+Proof. unfold snapshot_depth_ok, depth_ok. rewrite !Nat.ltb_lt. lia. Qed.
+
+Lemma read_lines s es :
+  wf_schema s = true -> all_ok s es -> map_opt (read_line s) (map (write_line s) es) = Some (map (canon_event s) es).
+Proof.
+  intros Hwf HF. apply map_opt_map. intros e He. unfold all_ok in HF. rewrite Forall_forall in HF.
+  destruct (HF e He) as [Hok Hd]. apply read_write_line; auto using snapshot_depth_depth.
+Qed.
+
+Lemma all_ok_filter s p es : all_ok s es -> all_ok s (filter p es).
+Proof.
+  unfold all_ok. rewrite !Forall_forall. intros H e He. apply filter_In in He. apply H. tauto.
+Qed.
+
+Lemma key_pair (x : N * str) : (fst x, snd x) = x.
+Proof. destruct x; reflexivity. Qed.
+
+Theorem views_agree s es key :
+  wf_schema s = true -> all_ok s es ->
+  let k := run_emits s es in
+  view_log s key k = Some (map (canon_event s) (view_live s key k))
+  /\ view_sidecar s key k = Some (map (canon_event s) (view_live s key k))
+  /\ view_snapshot s key k = Some (map (canon_event s) (view_live s key k)).
+Proof.
+  intros Hwf HF k. subst k. rewrite run_emits_eq.
+  unfold view_log, view_sidecar, view_snapshot, view_live. cbn [k_log k_sidecar k_buffer k_live]. repeat split.
+  - rewrite (read_lines s es Hwf HF). cbn [option_map]. rewrite of_stream_canon. reflexivity.
+  - assert (E : map (fun x : N * str * str => snd x)
+                  (filter (fun x => key_eqb (fst (fst x), snd (fst x)) key)
+                     (map (fun e => (fst (stream_key s e), snd (stream_key s e), write_line s e)) es))
+                = map (write_line s) (of_stream s key es)).
+    { unfold of_stream. clear HF. induction es as [|e es IH]; [reflexivity|].
+      cbn [map filter fst snd]. rewrite key_pair. destruct (key_eqb (stream_key s e) key); cbn [map snd]; rewrite IH; reflexivity. }
+    rewrite E. apply read_lines; [exact Hwf | apply all_ok_filter; exact HF].
+  - apply read_write_snapshot; [exact Hwf | apply all_ok_filter; exact HF].
+Qed.
+
+(* nothing appears in a view that is not in the log *)
+Theorem views_within_log s es key e :
+  wf_schema s = true -> all_ok s es ->
+  let k := run_emits s es in
+  (forall v, (view_sidecar s key k = Some v \/ view_snapshot s key k = Some v \/ v = map (canon_event s) (view_live s key k)) ->
+             In e v -> exists all, map_opt (read_line s) (k_log k) = Some all /\ In e all).
+Proof.
+  intros Hwf HF k v Hv Hin. destruct (views_agree s es key Hwf HF) as [_ [H2 H3]]. fold k in H2, H3.
+  assert (Ev : v = map (canon_event s) (view_live s key k)).
+  { destruct Hv as [Hv | [Hv | Hv]]; [rewrite H2 in Hv | rewrite H3 in Hv | exact Hv]; congruence. }
+  subst v. exists (map (canon_event s) es). split.
+  - subst k. rewrite run_emits_eq. cbn [k_log]. apply read_lines; assumption.
+  - apply in_map_iff in Hin. destruct Hin as [x [<- Hx]]. apply in_map. subst k. rewrite run_emits_eq in Hx.
+    unfold view_live, of_stream in Hx. cbn [k_live] in Hx. apply filter_In in Hx. tauto.
+Qed.
+
+(* when no Some(x) prints as null, the views are the live frames themselves *)
+Lemma map_canon_exact s es :
+  Forall (fun e => wt_event s e = true /\ exact_event s e = true) es -> map (canon_event s) es = es.
+Proof.
+  intros H. induction H as [|e es [Hw Hx] _ IH]; [reflexivity|]. cbn [map]. rewrite IH, (canon_event_exact s e Hw Hx). reflexivity.
+Qed.
+
+Theorem views_exact s es key :
+  wf_schema s = true -> all_ok s es -> Forall (fun e => exact_event s e = true) es ->
+  let k := run_emits s es in
+  view_log s key k = Some (view_live s key k)
+  /\ view_sidecar s key k = Some (view_live s key k)
+  /\ view_snapshot s key k = Some (view_live s key k).
+Proof.
+  intros Hwf HF Hx k. destruct (views_agree s es key Hwf HF) as [H1 [H2 H3]]. fold k in H1, H2, H3.
+  assert (E : map (canon_event s) (view_live s key k) = view_live s key k).
+  { apply map_canon_exact. subst k. rewrite run_emits_eq. unfold view_live, of_stream. cbn [k_live].
+    apply Forall_forall. intros e He. apply filter_In in He. destruct He as [He _].
+    unfold all_ok in HF. rewrite Forall_forall in HF, Hx. destruct (HF e He) as [Hok _].
+    unfold frame_ok in Hok. apply andb_true_iff in Hok. split; [tauto | apply Hx; exact He]. }
+  rewrite E in H1, H2, H3. auto.
+Qed.
+
+(* ================= the statements of Props/C03.v ================= *)
+Theorem roundtrip_wire s e :
+  wf_schema s = true -> frame_ok s e = true -> depth_ok s e = true -> wire_event s e = true ->
+  exists e', read_line s (write_line s e) = Some e' /\ write_line s e' = write_line s e
+             /\ event_kind s e' = event_kind s e /\ e_sid e' = e_sid e /\ e_var e' = e_var e.
+Proof.
+  intros Hwf Hok Hd Hw. exists (canon_event s e). split; [apply read_write_line; assumption|].
+  split; [unfold write_line; rewrite encode_canon by exact Hw; reflexivity|].
+  split; [apply canon_event_kind|]. split; [apply canon_event_sid | apply canon_event_var].
+Qed.
+
+Theorem roundtrip_exact s e :
+  wf_schema s = true -> frame_ok s e = true -> depth_ok s e = true -> exact_event s e = true ->
+  read_line s (write_line s e) = Some e.
+Proof.
+  intros Hwf Hok Hd Hx. rewrite read_write_line by assumption. f_equal. apply canon_event_exact; [|exact Hx].
+  unfold frame_ok in Hok. apply andb_true_iff in Hok. tauto.
+Qed.
+
+Theorem stream_preserved s e :
+  wf_schema s = true -> frame_ok s e = true -> depth_ok s e = true ->
+  exists e', read_line s (write_line s e) = Some e' /\ stream_key s e' = stream_key s e.
+Proof.
+  intros Hwf Hok Hd. exists (canon_event s e). split; [apply read_write_line; assumption | apply stream_key_canon].
+Qed.
+
+Theorem kind_of_variant_only s e e' : e_var e = e_var e' -> event_kind s e = event_kind s e'.
+Proof. unfold event_kind. intros ->. reflexivity. Qed.
+
+Theorem snapshot_exact s es :
+  wf_schema s = true -> all_ok s es -> Forall (fun e => exact_event s e = true) es ->
+  read_snapshot s (write_snapshot s es) = Some es.
+Proof.
+  intros Hwf HF Hx. rewrite read_write_snapshot by assumption. f_equal. apply map_canon_exact.
+  apply Forall_forall. intros e He. unfold all_ok in HF. rewrite Forall_forall in HF, Hx. destruct (HF e He) as [Hok _].
+  unfold frame_ok in Hok. apply andb_true_iff in Hok. split; [tauto | apply Hx; exact He].
+Qed.
+
+(* ================= witnesses: a small well-formed schema and frames over it ================= *)
+Definition demo_variant : variant :=
+  {| vname := [86]; vtag := [118]; valiases := [[119]];
+     vfields := [ (mkF [97] false [] SkipNever, TVal);                       (* a: Value *)
+                  (mkF [114] true [] SkipIsNone, TOpt TVal);                 (* r: Option<Value>, default, skipped if None *)
+                  (mkF [111] false [[112]] SkipNever, TOpt TVal);            (* o: Option<Value>, alias p *)
+                  (mkF [108] true [] SkipIsEmpty, TVec TStr);                (* l: Vec<String>, default, skipped if empty *)
+                  (mkF [110] false [] SkipNever, TI32) ] |}.                 (* n: i32 *)
+
+Definition schema_with (vs : list variant) : schema :=
+  {| s_variants := vs; s_arms := []; s_default_kind := KSession; s_default_guard := false;
+     s_wire := expected_wire; s_wire_flatten := (k_kind, x_self_kind);
+     s_event := expected_event; s_event_flatten := (k_kind, t_EventKind);
+     s_stream_id_body := x_self_session_id; s_tag_key := k_type; s_supported := true |}.
+
+Definition demo_schema : schema := schema_with [demo_variant].
+
+Definition demo_event (fields : list value) : event :=
+  {| e_id := [105]; e_sid := [115; 233; 128512]; e_ts := 1758000000000; e_seq := 7; e_var := 0; e_fields := fields |}.
+
+Definition ev_plain : event :=
+  demo_event [VVal (JObj [([107], JArr [JNum [49; 46; 53]; JNull])]); VOpt None; VOpt (Some (VVal (JStr [120]))); VVec []; VInt (-15)%Z].
+Definition ev_some_null_skipped : event :=
+  demo_event [VVal JNull; VOpt (Some (VVal JNull)); VOpt None; VVec [VStr [104; 105]]; VInt 0%Z].
+Definition ev_some_null_kept : event :=
+  demo_event [VVal JNull; VOpt None; VOpt (Some (VVal JNull)); VVec []; VInt 2147483647%Z].
+Definition ev_deep : event :=
+  demo_event [VVal (nested_arrays 126); VOpt None; VOpt None; VVec []; VInt 0%Z].
+
+Lemma demo_schema_wf : wf_schema demo_schema = true.
+Proof. vm_compute. reflexivity. Qed.
+
+Lemma ev_plain_ok :
+  frame_ok demo_schema ev_plain = true /\ depth_ok demo_schema ev_plain = true /\ snapshot_depth_ok demo_schema ev_plain = true
+  /\ wire_event demo_schema ev_plain = true /\ exact_event demo_schema ev_plain = true.
+Proof. vm_compute. repeat split; reflexivity. Qed.
+
+Lemma ev_plain_all_ok : all_ok demo_schema [ev_plain; ev_some_null_kept].
+Proof. repeat constructor; vm_compute; reflexivity. Qed.
+
+(* Some(null) in a skipped-when-None field: written as "r":null, read back as None, written again without
+   the key — the wire guard of roundtrip_wire is necessary *)
+Lemma some_null_skipped_witness :
+  wf_schema demo_schema = true /\ frame_ok demo_schema ev_some_null_skipped = true /\ depth_ok demo_schema ev_some_null_skipped = true
+  /\ exists e', read_line demo_schema (write_line demo_schema ev_some_null_skipped) = Some e'
+                /\ write_line demo_schema e' <> write_line demo_schema ev_some_null_skipped.
+Proof.
+  split; [vm_compute; reflexivity|]. split; [vm_compute; reflexivity|]. split; [vm_compute; reflexivity|].
+  exists (canon_event demo_schema ev_some_null_skipped). split; [vm_compute; reflexivity | vm_compute; discriminate].
+Qed.
+
+Theorem some_null_skipped_refuted :
+  exists s e, wf_schema s = true /\ frame_ok s e = true /\ depth_ok s e = true
+              /\ exists e', read_line s (write_line s e) = Some e' /\ write_line s e' <> write_line s e.
+Proof. exists demo_schema, ev_some_null_skipped. exact some_null_skipped_witness. Qed.
+
+(* Some(null) in an always-written Option field: the wire form is unchanged, the value is not *)
+Lemma some_null_kept_witness :
+  wf_schema demo_schema = true /\ frame_ok demo_schema ev_some_null_kept = true /\ depth_ok demo_schema ev_some_null_kept = true
+  /\ wire_event demo_schema ev_some_null_kept = true
+  /\ exists e', read_line demo_schema (write_line demo_schema ev_some_null_kept) = Some e' /\ e' <> ev_some_null_kept
+                /\ write_line demo_schema e' = write_line demo_schema ev_some_null_kept.
+Proof.
+  split; [vm_compute; reflexivity|]. split; [vm_compute; reflexivity|]. split; [vm_compute; reflexivity|].
+  split; [vm_compute; reflexivity|].
+  exists (canon_event demo_schema ev_some_null_kept). split; [vm_compute; reflexivity|]. split; [vm_compute; discriminate | vm_compute; reflexivity].
+Qed.
+
+Theorem exact_needs_guard_refuted :
+  exists s e, wf_schema s = true /\ frame_ok s e = true /\ depth_ok s e = true /\ wire_event s e = true
+              /\ exists e', read_line s (write_line s e) = Some e' /\ e' <> e /\ write_line s e' = write_line s e.
+Proof. exists demo_schema, ev_some_null_kept. exact some_null_kept_witness. Qed.
+
+(* serde_json's recursion limit: a payload nested 127 deep sits 128 deep inside its frame; the writer writes
+   it, the reader refuses it — the depth guard is necessary *)
+Lemma depth_limit_witness :
+  wf_schema demo_schema = true /\ frame_ok demo_schema ev_deep = true /\ wire_event demo_schema ev_deep = true
+  /\ exact_event demo_schema ev_deep = true /\ read_line demo_schema (write_line demo_schema ev_deep) = None.
+Proof. repeat split; vm_compute; reflexivity. Qed.
+
+Theorem depth_limit_refuted :
+  exists s e, wf_schema s = true /\ frame_ok s e = true /\ wire_event s e = true /\ exact_event s e = true
+              /\ read_line s (write_line s e) = None.
+Proof. exists demo_schema, ev_deep. exact depth_limit_witness. Qed.
+
+(* the schema conditions are needed: `skip_serializing_if` on a field that is neither `default` nor Option *)
+Definition bad_variant : variant :=
+  {| vname := [86]; vtag := [118]; valiases := [];
+     vfields := [ (mkF [108] false [] SkipIsEmpty, TVec TStr) ] |}.
+Definition bad_schema : schema := schema_with [bad_variant].
+Definition ev_empty_vec : event := demo_event [VVec []].
+
+Lemma skip_without_default_witness :
+  wf_schema bad_schema = false /\ frame_ok bad_schema ev_empty_vec = true /\ depth_ok bad_schema ev_empty_vec = true
+  /\ exact_event bad_schema ev_empty_vec = true /\ read_line bad_schema (write_line bad_schema ev_empty_vec) = None.
+Proof. repeat split; vm_compute; reflexivity. Qed.
+
+Theorem skip_without_default_refuted :
+  exists s e, wf_schema s = false /\ frame_ok s e = true /\ depth_ok s e = true /\ exact_event s e = true
+              /\ read_line s (write_line s e) = None.
+Proof. exists bad_schema, ev_empty_vec. exact skip_without_default_witness. Qed.
+
+(* a renamed field whose old key is not kept as an alias: old lines no longer read (what `alias` is for) *)
+Definition old_variant : variant :=
+  {| vname := [86]; vtag := [118]; valiases := []; vfields := [ (mkF [97] false [] SkipNever, TStr) ] |}.
+Definition new_variant_no_alias : variant :=
+  {| vname := [86]; vtag := [118]; valiases := []; vfields := [ (mkF [98] false [] SkipNever, TStr) ] |}.
+Definition new_variant_alias : variant :=
+  {| vname := [86]; vtag := [118]; valiases := []; vfields := [ (mkF [98] false [[97]] SkipNever, TStr) ] |}.
+Definition ev_str : event := demo_event [VStr [120]].
+
+Lemma rename_witness :
+  read_line (schema_with [new_variant_no_alias]) (write_line (schema_with [old_variant]) ev_str) = None
+  /\ read_line (schema_with [new_variant_alias]) (write_line (schema_with [old_variant]) ev_str) = Some ev_str.
+Proof. split; vm_compute; reflexivity. Qed.
